@@ -119,6 +119,10 @@ class History:
         if k in ('node_indices', 'node_position'):
             if op['idx'] is None:
                 return ()
+            if op.get('strided'):          # a non-contiguous view handed over as index array
+                big = np.zeros(2 * len(op['idx']), dtype=int)
+                big[::2] = op['idx']
+                return (big[::2],)
             return (np.array(op['idx'], dtype=int),)
         if k == 'dofconn':
             return (op['ndof'],)
@@ -351,7 +355,9 @@ def rand_query(r, grid, hs, nnodes):
     if k == 'nodenumber':
         return dict(op=k, ijk=box_points(r, grid, r.randint(1, 4), node=True))
     if k in ('node_indices', 'node_position'):
-        return dict(op=k, idx=None if r.random() < 0.5 else [r.randrange(nnodes) for _ in range(r.randint(1, 5))])
+        if r.random() < 0.5:
+            return dict(op=k, idx=None)
+        return dict(op=k, idx=[r.randrange(nnodes) for _ in range(r.randint(1, 5))], strided=r.random() < 0.4)
     if k == 'dofconn':
         return dict(op=k, ndof=r.choice((1, 1, 2, 3)))
     return dict(op=k, pos=rand_pos(r, hs))
@@ -363,7 +369,7 @@ def sweep_history(r, grid, hs):
     nn = (a + 1) * (b + 1) * (c + 1)
     qs = [dict(op='dofconn', ndof=1), dict(op='dofconn', ndof=2), dict(op='dofconn', ndof=3), dict(op='elemconn', ijk=all_elems(grid)),
           dict(op='node_indices', idx=None), dict(op='node_indices', idx=[nn - 1, 0, nn // 2]),
-          dict(op='node_position', idx=None), dict(op='node_position', idx=[nn - 1, 1]),
+          dict(op='node_position', idx=None), dict(op='node_position', idx=[nn - 1, 1], strided=True),
           dict(op='elemnumber', ijk=all_elems(grid)), dict(op='nodenumber', ijk=box_points(r, grid, 4, node=True)),
           dict(op='shape', pos=rand_pos(r, hs)), dict(op='shape_der', pos=rand_pos(r, hs)),
           dict(op='elemnumber', ijk=[[a - 1, b - 1, max(c, 1) - 1]], scalar=True)]
